@@ -160,11 +160,24 @@ theorem underscore_noop (fuel : Nat) (σ : State) (sc : List Addr) (names : List
     bindNextName fuel σ sc names c!"_" loc rhs op decl = .ok names σ := by
   unfold bindNextName; simp only [if_true]
 
-/-- `{_}` and `{"_": t}` in an object pattern bind nothing (the property need not even exist) -/
-theorem underscore_prop_noop (n : Nat) (σ : State) (sc : List Addr) (names : List (List Char)) (lhs : Expr) (b : Addr)
-    (ploc : Loc) (decl : Bool) :
-    bindObjectProp (n + 1) σ sc names lhs b c!"_" ploc decl = .ok names σ := by
-  rw [bindObjectProp]; simp only [if_true]
+/-- the shorthand `{_}` in an object pattern binds nothing (the property need not even exist): the pattern goes on with
+    the next item -/
+theorem underscore_shorthand_noop (n : Nat) (σ : State) (sc : List Addr) (names : List (List Char)) (l : Loc) (r : List PropItem)
+    (b : Addr) (decl : Bool) (i total : Nat) (rem : List (List Char)) :
+    bindObject (n + 1) σ sc names (.Single (.mk (.Var c!"_") l) false false :: r) b decl i total rem =
+      bindObject n σ sc names r b decl (i + 1) total (rem.filter fun k => k ≠ c!"_") := by
+  rw [bindObject]
+  simp only [Bool.false_eq_true, if_false, Expr.raw, if_true]
+
+/-- … while a pair whose KEY is `"_"` is a property like any other: it is looked up (and missing is an error)
+    (the pinned tree skipped it: defect D10) -/
+theorem underscore_key_is_a_key (n : Nat) (σ : State) (sc : List Addr) (names : List (List Char)) (lhs : Expr) (b : Addr)
+    (m : ObjMap) (ploc : Loc) (decl : Bool) (hb : σ.getObj b = some m) :
+    bindObjectProp (n + 1) σ sc names lhs b c!"_" ploc decl =
+      (match objGet c!"_" m with
+       | none => errAt ploc (Gen.Leaf.PropNotFound c!"_") σ
+       | some v => bindNext n σ sc names lhs v none decl) := by
+  rw [bindObjectProp]; simp only [hb]; rfl
 
 /-- the binder preserves "no scope cell holds `_`", for every name, mode and outcome -/
 theorem bindNextName_keeps_noUnderscore (fuel : Nat) (σ σ' : State) (sc : List Addr) (names names' : List (List Char))
